@@ -358,4 +358,22 @@ example (rest : Bits) : ∃ pic, decodeNextPicture exState ⟨(Pic.sor exPPic).b
       (by decide) _ rfl rfl rest 0
   exact ⟨pic, h, hz⟩
 
+open H263V.State H263V.Lemmas.StreamAny H263V.Lemmas.LevelArrays H263V.Lemmas.PlaneInv in
+/-- **Rejected without a reference, end to end**: in a reachable state without a reference picture, a valid predicted picture of
+any flavour in which at least one macroblock needs prediction (INTER of any kind, or not coded: `typeOf` is an INTER type) is
+rejected with the error value; by C05 the decoder and the reader are then as before the call.  (A predicted picture made of INTRA
+macroblocks only needs no prediction and decodes.) -/
+theorem predicted_picture_without_reference_rejected (s : State) (hs : StoreOK s) (hr : s.running = 0) (p : Pic) (w h : Nat)
+    (hv : p.Valid s w h) (hw : 1 ≤ w) (hh : 1 ≤ h) (hi : (p.picture s).picType ≠ .iFrame) (href : s.getRef = none)
+    (i : Nat) (hil : i < p.mbs.length) (hinter : (typeOf (p.mbs.getD i default)).isInter = true) (rest : Bits) (pos : Nat) :
+    decodeNextPicture s ⟨p.bits s ++ rest, pos⟩ = .err .uncodedIFrame :=
+  Lemmas.InterEnd.predicted_without_reference_rejected s hs hr p w h hv hw hh hi href i hil hinter rest pos
+
+open H263V.State H263V.Lemmas.StreamAny in
+/-- non-vacuity: a fresh decoder rejects `exPPic` -/
+example (rest : Bits) : decodeNextPicture (State.new { sorenson := true, scalability := false })
+    ⟨(Pic.sor exPPic).bits (State.new { sorenson := true, scalability := false }) ++ rest, 0⟩ = .err .uncodedIFrame :=
+  predicted_picture_without_reference_rejected _ (Lemmas.PlaneInv.new_storeOK _) rfl (Pic.sor exPPic) 16 16 ⟨rfl, exPPic_valid⟩
+    (by omega) (by omega) (by decide) rfl 0 (by decide) (by decide) rest 0
+
 end H263V.Thm.C03
